@@ -317,12 +317,17 @@ def run_case(case):
                 # a user-defined resource whose capacity depends on the TASK it is asked for (IResource passes the task):
                 # no capacity for the listed (task id, day) pairs, the calendar's answer otherwise
                 blocked = set((tid, d) for tid, d in case['task_aware'])
+                # ... and "overtime": days without calendar capacity that are open for ONE task (asked without a task, or for
+                # another one, the resource answers what its calendar says: nothing)
+                opened = set((tid, d) for tid, d in case.get('task_aware_open', []))
 
                 class TaskAware(Resource):
                     def get_available_units(self, date, task=None):
                         u = Resource.get_available_units(self, date, task)
                         if task is not None and (task.id, to_us(date) // DAY_US) in blocked:
                             return 0
+                        if task is not None and not u and (task.id, to_us(date) // DAY_US) in opened:
+                            return 8
                         return u
                 for nm in list(supplied):
                     supplied[nm] = TaskAware(nm, supplied[nm].calendar)
@@ -528,7 +533,6 @@ def run_case(case):
             out['resource_differs_from_calendar'] = notes[:3]
 
         if sch is not None:
-            out['obs'] = observe_schedule(sch, res_index)
             out['shape'] = shape_problems(wbs, sch.schedule)
             again = []
             signal.alarm(3 if BUDGET['timeouts'] >= 2 else 60)
@@ -557,6 +561,17 @@ def run_case(case):
                     except RuntimeError:
                         out['now2_raised'] = True   # e.g. a fixed end between the two clocks
                     set_clock(case['now'])
+                # the scheduler object of the observed call is then asked for ANOTHER plan: a resource name it has not met,
+                # a task without resource, a task of a known resource (a scheduler is a reusable object)
+                ow = WBS()
+                ow // Task(77001, 'other-a', estimate=8, resource='zz-not-seen-before')
+                ow // Task(77002, 'other-b', estimate=4)
+                if res_names:
+                    ow // Task(77003, 'other-c', estimate=8, resource=res_names[0])
+                try:
+                    sched.calc(ow)
+                except RuntimeError:
+                    pass                 # e.g. a calendar without capacity near the bound
             except Timeout:
                 out['again_exc'] = 'Timeout: a repeated calculation did not end'
                 BUDGET['timeouts'] += 1
@@ -566,6 +581,9 @@ def run_case(case):
                 signal.alarm(0)
             out['again'] = again
             out['pure2'] = snapshot(wbs, ext) == before
+            # the schedule that the observed call returned is read NOW, after the later calculations: what was handed
+            # out must not change behind the caller's back
+            out['obs'] = observe_schedule(sch, res_index)
         out = finalize(out, offgrid)
     except OffGrid as ex:
         return {'offgrid': str(ex)}
